@@ -154,9 +154,22 @@ pub fn silence_case(i: u64, seed: u64) -> Scenario {
         sc.specs.push(SpecSpec { host: 0, max_behind: 10, catchup: 1, slow: 0, window: sc.max_pred });
         sc.ops.push(Op::Outage { tick: 90, from: 1, to: 101, len_ms: len });
     }
+    k /= 3;
+    if k % 2 == 1 {
+        // while the real peer is silent, another session (e.g. the restarted peer) keeps knocking from
+        // its address: foreign-magic handshake and data packets must not count as a sign of life
+        let per_tick = (1000 / fps as u32).max(1);
+        let span = len / per_tick + 4;
+        for j in 0..8u32 {
+            let tick = 92 + j * span / 8;
+            let kind = [10u8, 11, 7, 5][(j % 4) as usize];
+            sc.ops.push(Op::Forge { tick, to: 1, from: 2, kind, a: 3 + j as i32, b: j as i32, bytes: vec![] });
+            sc.ops.push(Op::Forge { tick, to: 2, from: 1, kind, a: 5 + j as i32, b: j as i32, bytes: vec![] });
+        }
+    }
     sc
 }
-const NSILENCE: u64 = 4 * 2 * 21 * 2 * 2 * 3;
+const NSILENCE: u64 = 4 * 2 * 21 * 2 * 2 * 3 * 2;
 
 pub fn poll_only_case(i: u64, seed: u64) -> Scenario {
     let mut sc = Scenario::basic(mix(seed, i ^ 0x9011), 2);
@@ -208,7 +221,7 @@ pub fn run_prop(ctx: &Ctx) -> PropReport {
         gen_handshake, ctx.tier.pick(6000, 30000), eval_handshake));
     let reps = ctx.tier.pick(2u64, 6u64);
     rep.part(|| run_enum(ctx, "silence",
-        "enumeration: timeouts {500/2000 (default), 100/300, 300/1000, 800/3000} x silence length = notify or timeout +- 100 ms in 10 ms steps x one/both directions x spectator x poll cadence {16,10,33 ms} x window {8,0,2}; oracle: the exact Interrupted/Resumed/Disconnected sequence and instants predicted from poll instants and deliveries, grammar; non-trivial = an interruption occurred",
+        "enumeration: timeouts {500/2000 (default), 100/300, 300/1000, 800/3000} x silence length = notify or timeout +- 100 ms in 10 ms steps x one/both directions x spectator x poll cadence {16,10,33 ms} x window {8,0,2} x with/without another session's packets (foreign magic) arriving from the silent peer's address during the silence; oracle: the exact Interrupted/Resumed/Disconnected sequence and instants predicted from poll instants and deliveries, grammar; non-trivial = an interruption occurred",
         NSILENCE * reps, move |i| silence_case(i % NSILENCE, mix(seed, i / NSILENCE)), eval_silence, true));
     rep.part(|| run_enum(ctx, "poll_only",
         "two sessions (optionally a spectator) with default timeouts on a loss-free link with latency 0-100 ms that merely call poll_remote_clients() every 10/20/50/100 ms for 30 s: no NetworkInterrupted/Disconnected may be reported",
